@@ -96,6 +96,11 @@ BUDGET = {'quick': dict(examples=2720, max_s=300, shrink_cap=300),
 VOLATILE = O.VOLATILE
 TIME_UNITS = 'hours since 2000-01-01 00:00:00'
 T0 = datetime.datetime(2000, 1, 1)
+REFDATES = ['2000-01-01 00:00:00', '2000-01-01', '2000-01-01 0',
+            '2000-01-01 00', '2000-01-01 00:00', '2000-01-01 00:00:00Z',
+            '2000-01-01 00:00:00 UTC', '2000-01-01 00:00:00+00:00',
+            '2000-01-01 00:00:00+0000', '2000-01-01 00Z', '2000-1-1',
+            '2000-01-01 00:00Z', '2000-01-01T00:00:00']
 
 
 # ------------------------------------------------------------------ strategy
@@ -168,7 +173,9 @@ def query_files(draw):
         tv = [float(x) for x in np.cumsum(tsteps)]
         fs['vars'] = [v for v in fs['vars'] if v['name'] not in
                       ('time', 'time_bounds')]
-        tattrs = {'units': TIME_UNITS}
+        # every spelling of the reference instant 2000-01-01 00:00 UTC the
+        # library's parser accepts (date only, hour, minutes, full, zones)
+        tattrs = {'units': 'hours since ' + draw(st.sampled_from(REFDATES))}
         if draw(st.booleans()):
             tattrs['calendar'] = draw(st.sampled_from(['standard',
                                                        'gregorian']))
@@ -546,6 +553,15 @@ def _check_op(case, keep):
                     'coord:' + ('uniform' if c['uniform'] else 'nonuniform'),
                     'coord:' + ('asc' if c['sign'] > 0 else 'desc'),
                     'coord:bounds-' + c['bounds'], 'coord:' + c['code'])
+        if is_query and name in ('getTimes', 'date2num', 'time2idx') and \
+                fs.get('kind') not in ('ioapi', 'packed'):
+            tu = [v['attrs'].get('units', '') for v in fs['vars']
+                  if v['name'] == 'time']
+            base = tu[0].split(' since ')[-1] if tu else ''
+            r.label('timeunits:' + (
+                'date-only' if len(base) <= 10 else
+                'no-colon' if ':' not in base else
+                'zone' if base[-1] in 'ZC' or '+' in base else 'plain'))
         if is_query and name == 'getTimes':
             r.label('getTimes:bounds=%s' % call['bounds'])
             if qm.get('tbounds'):
